@@ -37,7 +37,7 @@ def main():
             if key in seen:
                 continue
             seen.add(key)
-            if r["broken"] or r["detected_by"] or not (r["what"] in WEAK or r["op"] in ("swap", "del", "move")):
+            if r["broken"] or r["detected_by"] or not (r["what"] in WEAK or r["op"] in ("swap", "del", "move", "arith")):
                 continue
             if subs and not any(s in r["file"] for s in subs):
                 continue
